@@ -2395,3 +2395,11 @@ package sarama
 //@   ensures[success_only_if_broker_said_so] e == nil ==> rsp != nil && rsp.ErrorCode <= 0
 //@   ensures[refresh_on_not_controller] rsp != nil && err == nil && rsp.ErrorCode == ErrNotController ==> ca.refreshes == old(ca.refreshes) + 1 && e != nil && ((dyntype(e) == typeid(KError) && e == ErrNotController) || (dyntype(e) == typeid(*TopicError) && e.(*TopicError).Err == ErrNotController) || (dyntype(e) == typeid(*TopicPartitionError) && e.(*TopicPartitionError).Err == ErrNotController))
 //@   nosafety
+
+// ---------------------------------------------------------------------------------------------
+// (C09) relational contract of every encode/decode pair of the package: for every protocol version the decoder
+// reads exactly the tokens the encoder writes, in the same order, each with the primitive that inverts the one that
+// wrote it; nested blocks are read as the block type they were written as, with the same version; loops are dual
+// (dual bodies, the iteration count is the length token that precedes the loop). The wire grammars of both
+// functions are extracted from the code on every run (obligation wire/<Type>/dual).
+//@ wiredual props C09
